@@ -759,6 +759,107 @@ impl CaseSpace for EventVariations {
 }
 
 // ---------------------------------------------------------------------------------------
+// (P) master and outstation together: released means delivered
+// ---------------------------------------------------------------------------------------
+
+/// Real master and real outstation back to back.  The outstation holds one event of every
+/// listed kind; some of them the master cannot take (a zero-length octet string, which this
+/// library's outstation may record and its master does not parse by default).  Whatever
+/// happens, an event the outstation released was handed to the master's handler first.
+pub struct PairedRelease;
+
+impl CaseSpace for PairedRelease {
+    fn name(&self) -> String {
+        "paired-release-implies-delivery".into()
+    }
+    fn seeded(&self) -> bool {
+        true
+    }
+    fn total(&self) -> usize {
+        // which events exist (bit 0: binary, bit 1: empty octet string, bit 2: analog) x how the master asks
+        7 * 2
+    }
+    fn run(&self, index: usize, transcript: bool) -> RunResult {
+        use crate::msim::MCb;
+        use dnp3::master::*;
+        let mut res = RunResult::default();
+        let which = 1 + index % 7;
+        let by_poll = index / 7 == 1;
+        res.obs = index as u64 + 606060;
+        let ocfg = OCfg { event_buf: [5; 8], confirm_timeout_ms: 2000, ..Default::default() };
+        let mut pair = crate::psim::Pair::new(&ocfg, 2048, true, 1000, 1);
+        pair.ohandle.transaction(|db| {
+            db.add(0, Some(EventClass::Class1), BinaryInputConfig::new(StaticBinaryInputVariation::Group1Var2, EventBinaryInputVariation::Group2Var2));
+            db.add(0, Some(EventClass::Class1), OctetStringConfig);
+            db.add(0, Some(EventClass::Class1), AnalogInputConfig::new(StaticAnalogInputVariation::Group30Var1, EventAnalogInputVariation::Group32Var3, 0.0));
+        });
+        let mut cfg = AssociationConfig::quiet();
+        cfg.response_timeout = dnp3::app::Timeout::from_millis(2000).unwrap();
+        let Some(mut assoc) = pair.add_association(cfg) else {
+            res.violation = Some(Violation::new("C03.P0", "setup", "add_association".to_string()));
+            return res;
+        };
+        pair.run_quiet(100);
+        pair.take_ocb();
+        pair.take_mcb();
+        let mut ids: Vec<(u64, &str)> = Vec::new();
+        pair.ohandle.transaction(|db| {
+            if which & 1 != 0 {
+                if let UpdateInfo::Created(id) = db.update2(0, &BinaryInput::new(true, Flags::ONLINE, ts(1001)), UpdateOptions::detect_event()) {
+                    ids.push((id, "binary"));
+                }
+            }
+            if which & 2 != 0 {
+                if let UpdateInfo::Created(id) = db.update2(0, &OctetString::new(&[]).unwrap(), UpdateOptions::detect_event()) {
+                    ids.push((id, "empty-octet-string"));
+                }
+            }
+            if which & 4 != 0 {
+                if let UpdateInfo::Created(id) = db.update2(0, &AnalogInput::new(7.0, Flags::ONLINE, ts(1002)), UpdateOptions::detect_event()) {
+                    ids.push((id, "analog"));
+                }
+            }
+        });
+        if by_poll {
+            let mut a2 = assoc.clone();
+            pair.call_now("add_poll", async move { a2.add_poll(ReadRequest::class_scan(Classes::class123()), std::time::Duration::from_secs(3)).await.is_ok() });
+        } else {
+            pair.call("read", async move { assoc.read(ReadRequest::class_scan(Classes::class123())).await });
+        }
+        pair.run_quiet(15_000);
+        res.transitions += 1;
+        if let Some(f) = pair.failure() {
+            res.violation = Some(Violation::new("C03.X0", f.clone(), f));
+            return res;
+        }
+        let released: Vec<u64> = pair.take_ocb().into_iter().filter_map(|c| if let Cb::EventCleared(id) = c { Some(id) } else { None }).collect();
+        let mcb = pair.take_mcb();
+        let delivered_kinds: Vec<String> = mcb.iter().filter_map(|c| if let MCb::Value(v) = c { Some(v.kind.to_string()) } else { None }).collect();
+        if transcript {
+            res.transcript.push(format!("events {ids:?}; released {released:?}; delivered to the master's handler: {delivered_kinds:?}"));
+        }
+        for (id, kind) in &ids {
+            let wanted = match *kind {
+                "binary" => "binary",
+                "analog" => "analog",
+                _ => "octets",
+            };
+            if released.contains(id) && !delivered_kinds.iter().any(|k| k == wanted) {
+                res.violation = Some(Violation::new(
+                    "C03.P1",
+                    format!("event-released-although-never-delivered:{kind}"),
+                    format!("events {ids:?} (master asks by {}): the outstation released event {id}, the master's handler received {delivered_kinds:?}", if by_poll { "periodic poll" } else { "user READ" }),
+                ));
+                return res;
+            }
+        }
+        res.nontrivial = true;
+        res.model_states.push((which * 4 + released.len().min(3)) as u64);
+        res
+    }
+}
+
+// ---------------------------------------------------------------------------------------
 // (K) different limits per type: the buffer holds the sum of the limits
 // ---------------------------------------------------------------------------------------
 
